@@ -333,8 +333,11 @@ def main(tier="quick", seed=0):
         if len(f) >= 2 and -1 in f and any(v >= 0 for v in f):
             chk.case((tuple(f), t["y"]["ndim"], t["y"]["cols"], t["K"], t["explicit"], t["sent"], t["dtype"],
                       t["form"]))
-    chk.sample({"trace": traces[len(traces) // 2]})
-    chk.sample({"trace": traces[len(traces) // 5]})
+    mixed = [t for t in traces if -1 in t["y"]["flat"] and any(v >= 0 for v in t["y"]["flat"])]
+    for pool in ([t for t in mixed if t["events"][0]["ev"] != "Raised" and t["y"]["ndim"] == 2],
+                 [t for t in mixed if t["events"][0]["ev"] == "Raised"], ttraces):
+        if pool:
+            chk.sample({"trace": pool[len(pool) // 2]})
     chk.extra["concrete_executions"] = n_exec
     chk.extra["abstract_cases"] = len(used)
     chk.rule = ("cases = initial states of Labels enumerated by TLC (1-D arrays of length <= %d incl. the empty one, "
